@@ -202,6 +202,9 @@ func init() {
 			// crashes at quiescent points and at storage boundaries, restarts
 			reg(&explore.Suite{Name: fmt.Sprintf("crash%d-d%d", n, d), Cfg: sim.Config{Voters: n, StoreHook: true},
 				Budget: sim.Budget{Timeouts: 3, Elapses: 3, Beats: 1, Writes: 2, Reorders: -1, Splits: 1, Crashes: 1, Arms: 1, Restarts: 2, Deviations: d}})
+			// the same on the library's real file-backed storages (crashes at quiescent points)
+			reg(&explore.Suite{Name: fmt.Sprintf("filecrash%d-d%d", n, d), Cfg: sim.Config{Voters: n, FileStore: true},
+				Budget: sim.Budget{Timeouts: 3, Elapses: 3, Beats: 1, Writes: 2, Reorders: -1, Splits: 1, Crashes: 1, Restarts: 2, Deviations: d}})
 			// faults of the network: drops, duplicates, late replies
 			reg(&explore.Suite{Name: fmt.Sprintf("net%d-d%d", n, d), Cfg: sim.Config{Voters: n},
 				Budget: sim.Budget{Timeouts: 2, Elapses: 2, Beats: 2, Writes: 2, Reorders: -1, Splits: 3, Drops: 1, DropReplies: 1, Dups: 2, Deviations: d}})
@@ -210,12 +213,39 @@ func init() {
 	for d := 0; d <= 5; d++ {
 		reg(&explore.Suite{Name: fmt.Sprintf("split3-d%d", d), Cfg: sim.Config{Voters: 3}, Seed: seedSplit,
 			Budget: sim.Budget{Timeouts: 2, Elapses: 2, Beats: 1, Reorders: -1, Splits: 1, Deviations: d}})
+		// S-revote: after S-split n2 voted for n0 (which leads term 3), crashed and
+		// restarted; n1 campaigned again, got n2's prevote and its request for
+		// n2's real vote of term 3 has been answered (refused on a correct library)
+		reg(&explore.Suite{Name: fmt.Sprintf("revote3-d%d", d), Cfg: sim.Config{Voters: 3},
+			Seed:   append(append([]sim.Event{}, seedSplit...), sim.MustParse("rt 0>2:RV#2", "crash n2", "restart n2", "timeout n1", "rt 1>2:RV#3 a=2", "rt 1>2:RV#4")...),
+			Budget: sim.Budget{Timeouts: 1, Elapses: 1, Beats: 1, Writes: 2, Cuts: 1, Reorders: -1, Splits: 1, Deviations: d}})
+		// two candidates of one term, voters that crash and restart, on the real file-backed storages
+		reg(&explore.Suite{Name: fmt.Sprintf("filesplit3-d%d", d), Cfg: sim.Config{Voters: 3, FileStore: true}, Seed: seedSplit,
+			Budget: sim.Budget{Timeouts: 2, Elapses: 2, Beats: 1, Reorders: -1, Splits: 1, Crashes: 1, Restarts: 1, Deviations: d}})
 		reg(&explore.Suite{Name: fmt.Sprintf("lead3-d%d", d), Cfg: sim.Config{Voters: 3, StoreHook: true}, Seed: seedLeader3,
 			Budget: sim.Budget{Timeouts: 2, Elapses: 2, Beats: 1, Writes: 2, Reorders: -1, Splits: 2, Crashes: 2, Arms: 1, Restarts: 2, Deviations: d}})
 	}
 	for d := 0; d <= 4; d++ {
 		reg(&explore.Suite{Name: fmt.Sprintf("regained5-d%d", d), Cfg: sim.Config{Voters: 5}, Seed: seedRegained5,
 			Budget: sim.Budget{Timeouts: 1, Elapses: 1, Beats: 2, Writes: 1, Reorders: -1, Splits: 1, Deviations: d}})
+	}
+	// S-regained-elect (5 voters): after S-regained the leader n0 (term 3) has
+	// replicated its no-op and one write to n3 only (2 of 5 copies: nothing is
+	// committed); n0 and n3 are then cut off and n1 wins term 4 with n2 and n4.
+	regainedElect := append(append([]sim.Event{}, seedRegained5...), sim.MustParse("rt 0>3:AE#5", "write n0", "rt 0>3:AE#6", "isolate n0", "isolate n3",
+		"timeout n1", "rt 1>2:RV#0 a=2", "rt 1>4:RV#0 a=2", "rt 1>2:RV#1", "rt 1>4:RV#1")...)
+	for d := 0; d <= 4; d++ {
+		reg(&explore.Suite{Name: fmt.Sprintf("regainedelect5-d%d", d), Cfg: sim.Config{Voters: 5}, Seed: regainedElect,
+			Budget: sim.Budget{Timeouts: 1, Elapses: 1, Beats: 2, Writes: 1, Cuts: 1, Reorders: -1, Splits: 1, Deviations: d}})
+	}
+	// S-stoprestart (C03): the cut-off leader n0 had two submissions in flight
+	// when its application stopped and restarted the same instance (the clients
+	// still hold the futures); n1 leads term 2 with n2; the partition has healed.
+	stopRestart := append(append([]sim.Event{}, seedLeader3...), sim.MustParse("isolate n0", "write n0", "write n0", "api n0 Stop", "api n0 Restart",
+		"timeout n1", "rt 1>2:RV#0 a=2", "rt 1>2:RV#1", "rt 1>2:AE#0", "rt 1>2:AE#1", "heal")...)
+	for d := 0; d <= 4; d++ {
+		reg(&explore.Suite{Name: fmt.Sprintf("stoprestart3-d%d", d), Cfg: sim.Config{Voters: 3}, Seed: stopRestart,
+			Budget: sim.Budget{Timeouts: 1, Elapses: 1, Beats: 2, Writes: 2, Cuts: 1, Reorders: -1, Splits: 1, ClientTimeouts: 1, Deviations: d}})
 	}
 	for n := 2; n <= 4; n++ {
 		for d := 0; d <= 5; d++ {
@@ -455,6 +485,11 @@ func init() {
 		reg(&explore.Suite{Name: fmt.Sprintf("pending3-d%d", d), Cfg: sim.Config{Voters: 3}, Seed: oldLong,
 			Budget: sim.Budget{Timeouts: 1, Elapses: 1, Beats: 1, Writes: 2, Cuts: 1, Reorders: -1, Splits: 1, ClientTimeouts: 1, Deviations: d}})
 	}
+	// snapshots, compaction, conflicts and restarts on the real file-backed storages
+	for d := 0; d <= 4; d++ {
+		reg(&explore.Suite{Name: fmt.Sprintf("filesnap3-d%d", d), Cfg: sim.Config{Voters: 3, SnapAt: 2, FileStore: true}, Seed: seedLeader3, Monitors: snapMonitors,
+			Budget: sim.Budget{Timeouts: 2, Elapses: 2, Beats: 2, Writes: 3, Cuts: 2, Crashes: 1, Restarts: 1, Reorders: -1, Splits: 1, Deviations: d}})
+	}
 	// snapshots on (threshold 2): local snapshots, compaction, installation
 	for d := 0; d <= 4; d++ {
 		reg(&explore.Suite{Name: fmt.Sprintf("snap3-d%d", d), Cfg: sim.Config{Voters: 3, SnapAt: 2}, Seed: seedLeader3, Monitors: snapMonitors,
@@ -471,6 +506,34 @@ func init() {
 	for d := 0; d <= 4; d++ {
 		reg(&explore.Suite{Name: fmt.Sprintf("minread5-d%d", d), Cfg: sim.Config{Voters: 5}, Seed: minRead5,
 			Budget: sim.Budget{Beats: 3, Writes: 1, Reads: 1, Reorders: -1, Splits: 1, Deviations: d}})
+	}
+	// slow state machine: taking a snapshot (and restoring one) takes environment time
+	for d := 0; d <= 4; d++ {
+		reg(&explore.Suite{Name: fmt.Sprintf("slowsnap3-d%d", d), Cfg: sim.Config{Voters: 3, SnapAt: 2, HoldFsm: "snapshot,restore"}, Seed: seedLeader3, Monitors: snapDurMonitors,
+			Budget: sim.Budget{Timeouts: 2, Elapses: 2, Beats: 2, Writes: 3, Cuts: 2, Crashes: 1, Restarts: 1, Reorders: -1, Splits: 1, Deviations: d}})
+	}
+	// slow Apply: the apply loop releases the node lock while the application works
+	for d := 0; d <= 4; d++ {
+		reg(&explore.Suite{Name: fmt.Sprintf("slowapply3-d%d", d), Cfg: sim.Config{Voters: 3, HoldFsm: "apply"}, Seed: seedLeader3,
+			Budget: sim.Budget{Timeouts: 2, Elapses: 2, Beats: 2, Writes: 2, Reads: 1, Cuts: 1, Crashes: 1, Restarts: 1, Reorders: -1, Splits: 1, ClientTimeouts: 1, Deviations: d}})
+		reg(&explore.Suite{Name: fmt.Sprintf("slowapplysnap3-d%d", d), Cfg: sim.Config{Voters: 3, SnapAt: 2, HoldFsm: "apply,snapshot,restore"}, Seed: seedLeader3, Monitors: snapDurMonitors,
+			Budget: sim.Budget{Timeouts: 1, Elapses: 1, Beats: 2, Writes: 3, Cuts: 2, Crashes: 1, Restarts: 1, Reorders: -1, Splits: 1, Deviations: d}})
+	}
+	// S-restoring: as S-stalesuffix, then the partition moves (n2 is cut off
+	// instead of n0), stale messages are lost, and n0 has received the complete
+	// snapshot of n1 and is inside Restore; a retransmission of the last chunk
+	// is on its way.
+	restoring := append(append([]sim.Event{}, staleSuffix...), sim.MustParse("heal", "isolate n2",
+		"drop 0>1:AE#2", "drop 0>1:AE#3", "drop 0>2:AE#2", "drop 0>2:AE#3", "drop 1>0:RV#0", "drop 1>0:RV#1", "drop 1>0:AE#0", "drop 1>0:AE#1", "drop 1>0:AE#2", "drop 1>0:AE#3",
+		"deliver 1>0:IS#0")...)
+	for d := 0; d <= 4; d++ {
+		reg(&explore.Suite{Name: fmt.Sprintf("restoring3-d%d", d), Cfg: sim.Config{Voters: 3, SnapAt: 2, HoldFsm: "restore"}, Seed: restoring, Monitors: snapDurMonitors,
+			Budget: sim.Budget{Timeouts: 1, Elapses: 1, Beats: 2, Writes: 1, Cuts: 1, Crashes: 1, Reorders: -1, Splits: 1, Deviations: d}})
+	}
+	// slow state machine: Restore takes environment time (the lock is released meanwhile)
+	for d := 0; d <= 4; d++ {
+		reg(&explore.Suite{Name: fmt.Sprintf("slowrestore3-d%d", d), Cfg: sim.Config{Voters: 3, SnapAt: 2, HoldFsm: "restore"}, Seed: staleSuffix, Monitors: snapDurMonitors,
+			Budget: sim.Budget{Timeouts: 1, Elapses: 1, Beats: 3, Writes: 1, Cuts: 1, Reorders: -1, Splits: 1, Deviations: d}})
 	}
 	for d := 0; d <= 4; d++ {
 		reg(&explore.Suite{Name: fmt.Sprintf("nvread5-d%d", d), Cfg: sim.Config{Voters: 3, Spares: 2}, Seed: seedNonVoters, Monitors: memberMonitors,
